@@ -1,6 +1,6 @@
 SPECIFICATION Spec
 CONSTANTS
-  MaxTraits = 2
+  MaxTraits = 1
   MaxMembers = 3
   AnyOrder = FALSE
   RepeatConflictIsError = TRUE
